@@ -34,7 +34,7 @@ type Payload struct {
 	Accepted bool   `json:"accepted"`
 }
 
-var payloads = []string{"\"", "\\", "'", "{", "}", ";", " x", "#", "$", "\\\"", "${", " \"x\"", "\n", ")", "\"x", "{}", "'x"}
+var payloads = []string{"", " 30m", " 8k", "\"", "\\", "'", "{", "}", ";", " x", "#", "$", "\\\"", "${", " \"x\"", "\n", ")", "\"x", "{}", "'x"}
 
 type leaf struct {
 	path string
@@ -84,7 +84,16 @@ func leavesOf(o any) []leaf {
 	var out []leaf
 	switch x := o.(type) {
 	case *networking.Ingress:
-		collectLeaves(reflect.ValueOf(&x.Spec), "Ingress.Spec", &out)
+		// host, service and port names of an Ingress are validated by the API server (DNS names); the
+		// controller's own validator covers the paths and the annotations
+		for i := range x.Spec.Rules {
+			if h := x.Spec.Rules[i].HTTP; h != nil {
+				for j := range h.Paths {
+					pp := &h.Paths[j]
+					out = append(out, leaf{path: "Ingress.Spec.Rules[].HTTP.Paths[].Path", get: func() string { return pp.Path }, set: func(s string) { pp.Path = s }})
+				}
+			}
+		}
 		keys := make([]string, 0, len(x.Annotations))
 		for k := range x.Annotations {
 			keys = append(keys, k)
